@@ -1,5 +1,7 @@
 import JobShopModel.Staged
 import JobShopModel.Rules
+import JobShopModel.Equality
+import JobShopModel.Views
 /-!
 # Line-protocol driver for the executable model
 
@@ -173,6 +175,85 @@ def solveTrace (c : Cfg) (rule : RuleKind) (ch : Chooser) : Nat → State → Li
     | none => none
     | some (s', r, m, draws') => solveTrace c rule ch fuel s' draws' (acc ++ [s!"{opId c.I r}:{m}"])
 
+def splitOnTok (ts : List String) (sep : String) : List (List String) :=
+  let rec go (ts : List String) (cur : List String) (acc : List (List String)) : List (List String) :=
+    match ts with
+    | [] => (cur.reverse :: acc).reverse
+    | t :: rest => if t == sep then go rest [] (cur.reverse :: acc) else go rest (t :: cur) acc
+  go ts [] []
+
+def parseOpObj (xs : List Int) : Option (OpObj × List Int) :=
+  match xs with
+  | k :: rest =>
+    let k := k.toNat
+    if rest.length < k + 4 then none else
+    some ({ machines := (rest.take k).map Int.toNat, dur := rest.getD k 0, job := rest.getD (k+1) 0,
+            pos := rest.getD (k+2) 0, id := rest.getD (k+3) 0 }, rest.drop (k+4))
+  | [] => none
+
+def parseInstSpec (ts : List String) : Option Instance :=
+  match ts with
+  | n :: rest => match n.toNat?, ints? rest with
+    | some n, some xs => parseJobs n xs
+    | _, _ => none
+  | [] => none
+
+partial def parseHist : List Int → Option (List (Nat × Nat × Nat))
+  | [] => some []
+  | j :: p :: m :: rest => (parseHist rest).map ((j.toNat, p.toNat, m.toNat) :: ·)
+  | _ => none
+
+def replayHist (I : Instance) (h : List (Nat × Nat × Nat)) : State :=
+  h.foldl (fun s r => match dispatch I s r.1 r.2.1 r.2.2 with | .ok s' => s' | .error _ => s) (init I)
+
+def schedObjs (I : Instance) (s : State) : List (List SOpObj) :=
+  s.sched.map fun ms => ms.map fun x =>
+    let op := ((I.getD x.job []).getD x.pos default)
+    { op := { machines := op.machines, dur := op.dur, job := x.job, pos := x.pos, id := opId I (x.job, x.pos) },
+      start := x.start, machine := x.machine }
+
+def fmtOptInt : Option Int → String
+  | some v => toString v
+  | none => "nan"
+
+def fmtInstance (I : Instance) : String :=
+  " ".intercalate ([toString I.length] ++ I.map fun job =>
+    " ".intercalate ([toString job.length] ++ job.map fun op =>
+      " ".intercalate ([toString op.machines.length] ++ op.machines.map toString ++ [toString op.dur])))
+
+def fmtViews (I : Instance) : String :=
+  let mm := match machinesMatrix I with
+    | .flex m => "flex " ++ " / ".intercalate (m.map fun (row : List (List Nat)) =>
+        " ".intercalate (row.map fun ms => lst (fmtNats ms)))
+    | .single m => "single " ++ " / ".intercalate (m.map fmtNats)
+  let obm := " / ".intercalate ((operationsByMachine I).map (fmtRefs I))
+  let padded := " / ".intercalate ((durationsMatrixArray I).map fun (row : List (Option Int)) =>
+    " ".intercalate (row.map fmtOptInt))
+  s!"{I.length} {numMachines I} {numOps I} {isFlexible I} | " ++
+  " / ".intercalate ((durationsMatrix I).map fmtInts) ++ s!" | {mm} | {obm} | {fmtInts (machineLoads I)} | " ++
+  s!"{fmtInts (maxDurationPerMachine I)} | {fmtInts (jobDurations I)} | {totalDuration I} | " ++
+  (match maxDurationPerJob I with | some l => lst (fmtInts l) | none => "none") ++ " | " ++
+  (match maxDuration I with | some v => toString v | none => "none") ++ s!" | {padded}"
+
+/-- parse `nm {n j...}*` -/
+partial def parseSeqs : Nat → List Int → Option (List (List Nat))
+  | 0, [] => some []
+  | 0, _ => none
+  | n+1, k :: rest =>
+    let k := k.toNat
+    if rest.length < k then none else
+    (parseSeqs n (rest.drop k)).map (((rest.take k).map Int.toNat) :: ·)
+  | _, [] => none
+
+def fmtSched (I : Instance) (s : State) : String :=
+  " | ".intercalate (s.sched.map fun ms => " ".intercalate (ms.map (fmtSOp I)))
+
+def runJobSeq (I : Instance) (seqs : List (List Nat)) : String :=
+  match fromJobSequences I (numOps I + 1) seqs (init I) with
+  | .ok s => s!"ok {fmtSched I s}"
+  | .validationError => "raise"
+  | _ => "error"
+
 def step (w : World) (line : String) : World × String :=
   match toks line with
   | "inst" :: n :: rest =>
@@ -236,6 +317,48 @@ def step (w : World) (line : String) : World × String :=
     | some id => (match w.resubscribe id with | (w', true) => (w', "ok") | (w', false) => (w', "raise"))
     | none => (w, "bad-op")
   | "mark" :: _ => (w, "ok")
+  | ["views"] => (w, fmtViews w.cfg.I)
+  | ["dict"] => let d := toDict w.cfg.I; (w, fmtInstance (fromMatrices d.1 d.2))
+  | ["taillard"] =>
+    if isFlexible w.cfg.I then (w, "n/a") else (w, fmtInstance (parseTaillard (renderTaillard w.cfg.I)))
+  | ["seqs"] => (w, " / ".intercalate ((jobSequences w.s).map fmtNats))
+  | ["rebuild"] => (w, runJobSeq w.cfg.I (jobSequences w.s))
+  | "jobseq" :: n :: rest =>
+    match n.toNat?, ints? rest with
+    | some n, some xs => (match parseSeqs n xs with
+        | some seqs => (w, runJobSeq w.cfg.I seqs)
+        | none => (w, "bad-op"))
+    | _, _ => (w, "bad-op")
+  | "eqop" :: rest =>
+    match (splitOnTok rest ";").map ints? with
+    | [some a, some b] =>
+      (match parseOpObj a, parseOpObj b with
+       | some (x, _), some (y, _) => (w, s!"{opEq x y} {!opEq x y} {opHash x == opHash y}")
+       | _, _ => (w, "bad-op"))
+    | _ => (w, "bad-op")
+  | "eqsop" :: rest =>
+    match (splitOnTok rest ";").map ints? with
+    | [some a, some b] =>
+      (match parseOpObj a, parseOpObj b with
+       | some (x, [s1, m1]), some (y, [s2, m2]) =>
+         let sx : SOpObj := ⟨x, s1, m1⟩
+         let sy : SOpObj := ⟨y, s2, m2⟩
+         (w, s!"{sopEq sx sy} {!sopEq sx sy}")
+       | _, _ => (w, "bad-op"))
+    | _ => (w, "bad-op")
+  | "eqinst" :: rest =>
+    match (splitOnTok rest ";").map parseInstSpec with
+    | [some a, some b] => (w, s!"{instEq (opObjs a) (opObjs b)} {!instEq (opObjs a) (opObjs b)}")
+    | _ => (w, "bad-op")
+  | "eqsched" :: rest =>
+    match splitOnTok rest ";" with
+    | [ia, ha, ib, hb] =>
+      (match parseInstSpec ia, (ints? ha).bind parseHist, parseInstSpec ib, (ints? hb).bind parseHist with
+       | some a, some h1, some b, some h2 =>
+         let r := schedEq (schedObjs a (replayHist a h1)) (schedObjs b (replayHist b h2))
+         (w, s!"{r} {!r}")
+       | _, _, _, _ => (w, "bad-op"))
+    | _ => (w, "bad-op")
   | "rule" :: r :: rest =>
     match parseRule r with
     | some rule =>
